@@ -300,6 +300,9 @@ func (p *parser) parseMul() (*Expr, error) {
 }
 
 func (p *parser) parseUnary() (*Expr, error) {
+	if t := p.peek(); t.kind == "id" && (t.text == "forall" || t.text == "exists") {
+		return p.parseTop() // a quantifier extends as far to the right as possible
+	}
 	if p.accept("!") {
 		e, err := p.parseUnary()
 		if err != nil {
